@@ -87,11 +87,27 @@ def mk(kind: str, tc: bool, i: int) -> bytes:
     raise KeyError(kind)
 
 
-CHANGES = ["sub-U", "unsub-S", "pause-S", "sub-all", "unsub-all", "resume-Z", "pause-all", "pause-all-api", "unsub-ALL", "resume-all-api"]
+CHANGES = ["sub-U", "unsub-S", "pause-S", "sub-all", "unsub-all", "resume-Z", "pause-all", "pause-all-api", "unsub-ALL", "resume-all-api",
+           # two changes in a row (what the first one leaves behind in the client's bookkeeping meets the second), and a
+           # subscription context over a mixed list (one type paused on entry, one not subscribed at all): left as entered
+           "unsub-ALL+sub-U", "pause-all+sub-U", "unsub-ALL+resume-Z", "pause-all+sub-U+pause-S", "unsub-ALL+sub-U+unsub-S", "ctx-ZU", "ctx-SU", "pctx-SZ"]
 
 
 def apply_change(c, ch):
-    if ch == "sub-U":
+    if "+" in ch:
+        for part in ch.split("+"):
+            apply_change(c, part)
+        return
+    if ch == "ctx-ZU":
+        with c.subscription_context([Z8, U8]):
+            pass
+    elif ch == "ctx-SU":
+        with c.subscription_context([S8, U8]):
+            pass
+    elif ch == "pctx-SZ":
+        with c.paused_subscription_context([S8, Z8]):
+            pass
+    elif ch == "sub-U":
         c.subscribe([U8])
     elif ch == "unsub-S":
         c.unsubscribe([S8])
@@ -114,6 +130,12 @@ def apply_change(c, ch):
 
 
 def model_change(st, ch):
+    if "+" in ch:
+        for part in ch.split("+"):
+            st = model_change(st, part)
+        return st
+    if ch in ("ctx-ZU", "ctx-SU", "pctx-SZ"):
+        return st  # a context leaves the subscriptions as it found them
     subs, all_ = set(st[0]), st[1]
     if ch == "sub-all":
         return (set(), True)
